@@ -200,6 +200,33 @@ def tb_jobs(ctx):
     return jobs
 
 
+def hd_consts(**kw):
+    c = {'Threads': '<-ThreadsDef', 'Locs': '<-LocsDef', 'InitVal': '<-InitValDef', 'Ord': '<-OrdCode', 'Weak': False,
+         'K': 1, 'KX': 1, 'NBlocks': 2, 'NCells': 3, 'NObj': 5, 'MaxScans': 2, 'InitThenLink': True, 'Revalidate': True}
+    c.update(kw)
+    return c
+
+
+HD_ACTIONS = ['StartAcquire', 'a_ld1', 'a_link', 'b_alloc', 'b_init', 'b_ldh', 'b_setn', 'b_pub', 'a_pub', 'a_fence', 'a_ld2', 'a_got', 'StartReplace', 'x_cas', 's_fence1', 's_ld',
+              's_ldb', 's_nextb', 's_fence2', 's_free']
+INV_HD = ['Safe', 'SlotsIntact', 'NoSlotTwice']
+
+
+def hd_jobs(ctx):
+    """dynamic allocation strategy of hazard_pointer / hazard_eras: extra slot blocks allocated, initialised, linked and published while guards are live"""
+    q = ctx.quick
+    mc = lambda name, **kw: tlc_mc(ctx, name, 'HPDynamic', hd_consts(**kw.pop('c', {})), invariants=kw.pop('inv', INV_HD), **kw)
+    jobs = [
+        lambda: mc('hpdyn_k1_2blocks', workers=4, must_cover=HD_ACTIONS),
+        lambda: mc('hpdyn_toggle_link_before_init', c={'InitThenLink': False}, workers=3, expect='violation'),
+        lambda: mc('hpdyn_toggle_no_revalidate', c={'Revalidate': False}, workers=3, expect='violation'),
+    ]
+    if not q:
+        jobs += [lambda: mc('hpdyn_k2', c={'K': 2, 'KX': 2, 'NBlocks': 1, 'NCells': 4, 'NObj': 6}, workers=6, tmo=1500),
+                 lambda: mc('hpdyn_k2_2blocks', c={'K': 2, 'KX': 1, 'NBlocks': 2, 'NCells': 4, 'NObj': 6, 'MaxScans': 2}, workers=8, tmo=2400, heap='24g')]
+    return jobs
+
+
 def run_models(ctx, pid):
     q = ctx.quick
     inv = {'C01': ['Safe'], 'C02': ['Safe', 'NoLeak'], 'C18': ['Safe', 'SlotsConserved'], 'C17': ['Safe', 'NoLeak']}[pid]
@@ -234,6 +261,8 @@ def run_models(ctx, pid):
         jobs += st_jobs(ctx, ['Safe', 'TailBound'] if pid == 'C01' else ['Safe', 'TailBound', 'NoLeak', 'OnLists'])
     if pid == 'C17':
         jobs += tb_jobs(ctx)
+    if pid in ('C01', 'C18'):
+        jobs += hd_jobs(ctx)
     if pid in ('C01', 'C02', 'C18'):
         jobs += he_jobs(ctx, {'C01': ['Safe'], 'C02': ['Safe', 'NoLeak'], 'C18': ['Safe', 'SlotsConserved']}[pid])
     run_parallel(jobs, maxw=3)
